@@ -345,6 +345,8 @@ def gen_reduce(ctx):
             raise P.Unsupported(f"Interval.{prop} is not the plain property of {attr}")
     out.append("Definition Interval_ctor_shape : bool := true.")
     # accessors used by the state / deepcopy lists that are properties over private fields: pin the ones the model relies on
+    # (DateTime.tz / .timezone = Model/Pickle.v `pendulum_tz`: None for a tzinfo that is not a pendulum Timezone / FixedTimezone,
+    #  e.g. datetime.timezone.utc or zoneinfo.ZoneInfo(..) - a state / keyword list that names them drops such a tzinfo)
     dcd = cds["DateTime"]
     f = [s for s in dcd.body if isinstance(s, ast.FunctionDef) and s.name in ("tz", "timezone")]
     got = {s.name: [ast.unparse(x) for x in _body(s)] for s in f}
